@@ -57,6 +57,12 @@ def main():
             meta = json.load(open(os.path.join(d, "meta.json")))
             checks = ALL if checks_arg == "all" else sorted(set([meta["property"]] + meta.get("caught_by", [])))
             tasks.append((name, os.path.join(d, "patch.diff"), checks))
+    elif mode == "dir":
+        for f in sorted(glob.glob(os.path.join(a[1], "*.diff"))):
+            name = os.path.basename(f)[:-5]
+            if only and name not in only:
+                continue
+            tasks.append((name, f, ALL if checks_arg in ("all", "own") else checks_arg.split(",")))
     else:
         for f in sorted(glob.glob(os.path.join(VERIF, "harmless", "*.diff"))):
             name = os.path.basename(f)[:-5]
@@ -70,6 +76,12 @@ def main():
             line = " ".join("%s:%s" % (c, "VIOL" if r.get("rc") == 1 else ("ok" if r.get("rc") == 0 else "?")) for c, r in res.items() if isinstance(r, dict))
             print(tag, line, flush=True)
     json.dump(out, open(os.path.join(VERIF, ".build", "selftest_%s.json" % mode), "w"), indent=1)
+    for tag, res in out.items():
+        for c, r in res.items():
+            if isinstance(r, dict) and r.get("rc") == 1 and mode == "dir":
+                print("  %s %s: %s" % (tag, c, r.get("first", "")[:160]))
+    if mode == "dir":
+        return 0
     if mode == "seeds":
         missed = [t for t, r in out.items() if not any(isinstance(x, dict) and x.get("rc") == 1 for x in r.values())]
         print("missed seeds:", missed)
